@@ -457,6 +457,26 @@ pub fn run(cfg: &Cfg, rep: &mut Report) {
             }
         }
     }
+    // 1f. numbers at every integer width; every arrangement of up to three groups in contexts that
+    // are emitted backwards
+    for ps in integer_width_patterns().into_iter().chain(group_arrangement_patterns()) {
+        for fl in ["", "u", "iv"] {
+            idx += 1;
+            let h = fnv64(format!("iw|{}|{}", ps, fl).as_bytes());
+            if !cfg.mine(h) || skip(idx) {
+                continue;
+            }
+            let p = cps(&ps);
+            let desc = J::obj().set("pattern", ps.as_str()).set("pattern_cps", J::Arr(p.iter().map(|&c| J::from(c)).collect())).set("flags", fl).set("source", "integer_widths_and_group_arrangements");
+            if idx % 64 == 0 {
+                rep.begin(idx, &desc);
+            }
+            rep.inc("programs");
+            rep.inc("source.integer_widths_and_group_arrangements");
+            let out = run_case(rep, &desc, &p, Flags::from_str(fl), idx % 2 == 0);
+            rep.inc(&format!("outcome.{}", out));
+        }
+    }
     // 2. truncated prefixes and single edits of corpus patterns, all flag sets of {none,u,v} x {none,i}
     let flagsets = ["", "u", "v", "i", "iu", "iv", "ms"];
     let mut rng = Rng::new(cfg.seed ^ 0x07);
